@@ -228,17 +228,54 @@ func (c *Ctx) Flatten(p *packages.Package, fd *ast.FuncDecl) *ast.BlockStmt {
 }
 
 type flattener struct {
-	c  *Ctx
-	p  *packages.Package
-	on map[*ast.FuncDecl]bool
+	c       *Ctx
+	p       *packages.Package
+	on      map[*ast.FuncDecl]bool
+	newOnly bool // splice only helpers written since the reference
+}
+
+// FlattenNew is Flatten restricted to helpers written since the reference (the others keep being analysed on their own).
+func (c *Ctx) FlattenNew(p *packages.Package, fd *ast.FuncDecl) *ast.BlockStmt {
+	f := &flattener{c: c, p: p, on: map[*ast.FuncDecl]bool{fd: true}, newOnly: true}
+	return f.block(fd.Body, 0)
+}
+
+// onlyStatementCalls: every use of the function in its package is a call standing alone as a statement.
+func onlyStatementCalls(c *Ctx, p *packages.Package, fd *ast.FuncDecl) bool {
+	self := p.TypesInfo.Defs[fd.Name]
+	if self == nil {
+		return false
+	}
+	uses, stmts := 0, 0
+	for _, f := range c.Files(p) {
+		ast.Inspect(f, func(n ast.Node) bool {
+			switch x := n.(type) {
+			case *ast.Ident:
+				if p.TypesInfo.Uses[x] == self {
+					uses++
+				}
+			case *ast.ExprStmt:
+				if call, ok := x.X.(*ast.CallExpr); ok {
+					if fn := Callee(p.TypesInfo, call); fn != nil && types.Object(fn) == self {
+						stmts++
+					}
+				}
+			}
+			return true
+		})
+	}
+	return uses > 0 && uses == stmts
 }
 
 func (f *flattener) calleeBody(call *ast.CallExpr) *ast.FuncDecl {
 	info := f.p.TypesInfo
-	if fn := Callee(info, call); fn != nil && fn.Pkg() == f.p.Types {
+	if fn := Callee(info, call); fn != nil && fn.Pkg() == f.p.Types && (!f.newOnly || isNewFunc(FuncID(fn))) {
 		if d := f.c.Decl(fn); d != nil && d.Body != nil && !f.on[d] {
 			return d
 		}
+	}
+	if f.newOnly {
+		return nil
 	}
 	// X.Do(recv.method): the method's body runs here
 	if len(call.Args) == 1 {
@@ -276,6 +313,25 @@ func (f *flattener) block(b *ast.BlockStmt, depth int) *ast.BlockStmt {
 
 func (f *flattener) stmt(s ast.Stmt, depth int) ast.Stmt {
 	switch x := s.(type) {
+	case *ast.ExprStmt:
+		// a call that is handed a function literal (once.Do(func() {…})): the literal's body is flattened too
+		if call, ok := x.X.(*ast.CallExpr); ok {
+			changed := false
+			args := make([]ast.Expr, len(call.Args))
+			for i, a := range call.Args {
+				args[i] = a
+				if fl, ok := a.(*ast.FuncLit); ok {
+					args[i] = &ast.FuncLit{Type: fl.Type, Body: f.block(fl.Body, depth)}
+					changed = true
+				}
+			}
+			if changed {
+				cc := *call
+				cc.Args = args
+				return &ast.ExprStmt{X: &cc}
+			}
+		}
+		return s
 	case *ast.BlockStmt:
 		return f.block(x, depth)
 	case *ast.IfStmt:
